@@ -275,4 +275,3 @@ func RunExploreDecided(j ExploreJob) (viol []Violation, evals int, decided bool)
 	}
 	return
 }
-
